@@ -159,8 +159,8 @@ func (fx *FX) computeLabels() {
 	memOf := func(addr ssa.Value) label {
 		r := rootOf(addr)
 		l := ls.mem[r]
-		// a pointer obtained from a labelled value carries the label
-		return l.join(get(r))
+		// a pointer obtained from a labelled value carries the label; so does a field address labelled by its name
+		return l.join(get(r)).join(get(addr)).join(ls.mem[addr])
 	}
 	for iter := 0; changed && iter < 50; iter++ {
 		changed = false
@@ -199,8 +199,28 @@ func (fx *FX) computeLabels() {
 					set(x, get(x.X))
 				case *ssa.FieldAddr:
 					set(x, get(x.X))
+					if st, ok := x.X.Type().Underlying().(*types.Pointer).Elem().Underlying().(*types.Struct); ok {
+						switch st.Field(x.Field).Name() {
+						case "Secret":
+							set(x, label{key: true}) // a field named Secret carries the shared secret
+							setMem(x, label{key: true})
+						case "Code":
+							set(x, label{usr: true})
+							setMem(x, label{usr: true})
+						}
+					}
 				case *ssa.Field:
 					set(x, get(x.X))
+					if st, ok := x.X.Type().Underlying().(*types.Struct); ok {
+						switch st.Field(x.Field).Name() {
+						case "Secret":
+							set(x, label{key: true})
+						case "Code":
+							set(x, label{usr: true})
+						}
+					}
+				case *ssa.MapUpdate:
+					setMem(rootOf(x.Map), get(x.Key).join(get(x.Value)))
 				case *ssa.Index:
 					set(x, get(x.X))
 				case *ssa.Lookup:
@@ -342,6 +362,21 @@ func (fx *FX) byteCompareCheck(st *State, x *ssa.BinOp) {
 	}
 	bad := (la.secret() && lb.usr) || (la.usr && lb.secret())
 	fx.trivial("taint:compare", "", !bad, x.Pos(), "early-exit comparison of secret-derived bytes with the submitted code")
+}
+
+// mapCompareCheck: a map lookup compares its key with the stored keys by an early-exit equality: a lookup
+// keyed by the submitted code in a map that holds secret-derived keys (or the converse) is a comparison.
+func (fx *FX) mapCompareCheck(st *State, x *ssa.Lookup) {
+	if fx.labels == nil {
+		return
+	}
+	lk := fx.lab(x.Index)
+	lm := fx.labMem(x.X).join(fx.lab(x.X))
+	if !(lk.usr || lk.secret()) || !(lm.usr || lm.secret()) {
+		return
+	}
+	bad := (lk.usr && lm.secret()) || (lk.secret() && lm.usr)
+	fx.trivial("taint:compare", "", !bad, x.Pos(), "map lookup keyed by the submitted code in a map of secret-derived keys (or the converse)")
 }
 
 // ctCompare: subtle.ConstantTimeCompare is the sanctioned meeting point of secret-derived and
